@@ -341,7 +341,7 @@ func runC12(c *Checker) {
 // ebpBuild creates an EBP through the constructor and the setters (grouping
 // ids, extension/partition bytes through the exported fields) and compares
 // Data() with the canonical bytes of the resulting layout.
-func (c *Checker) ebpBuild(s ebpShape) string {
+func (c *Checker) ebpBuild(s ebpShape, misuse bool) string {
 	in := newInterp(c.P)
 	var tm timeModel
 	s35Setup(in)
@@ -407,6 +407,12 @@ func (c *Checker) ebpBuild(s ebpShape) string {
 			vals["partitionFlags"] = msbBits(u("pf", 8), 8)
 		}
 	}
+	if misuse && s.cable && !s.ext {
+		// a setter called although the flag that guards its field is off: whatever
+		// the library makes of it, encoder and getters must stay consistent
+		// (checked by the decode-back comparison below)
+		n.call(e, "SetPartitionFlag", boolConst(true))
+	}
 	if s.grouping {
 		n.call(e, "SetGroupingFlag", boolConst(true))
 		var ids []Val
@@ -453,6 +459,43 @@ func (c *Checker) ebpBuild(s ebpShape) string {
 			return "Data() modifies the object it encodes (other than its length byte): " + ch
 		}
 	}
+	if misuse {
+		// decode-back: the bytes just produced decode to an object whose flag
+		// getters answer as the built object's do
+		enc := make([]Val, len(got))
+		for i, b := range got {
+			enc[i] = b
+		}
+		dec := n.callFn("ebp:ReadEncoderBoundaryPoint", n.mkSlice("encoded", types.Typ[types.Uint8], enc))
+		if in.Fail != "" {
+			return "analysis of the decode-back: " + in.Fail
+		}
+		tup, _ := dec.(*StructV)
+		if tup == nil || len(tup.Fields) != 2 {
+			return "decode-back: result is " + showVal(dec)
+		}
+		if eq, dc, det := equivBits(in.nilBit(tup.Fields[1]), bconst(true), 16); !eq || !dc {
+			return "the encoding of the built EBP is rejected by the decoder: " + det
+		}
+		getters := []string{"SegmentFlag", "FragmentFlag", "SapFlag", "GroupingFlag", "TimeFlag", "ExtensionFlag"}
+		if s.cable {
+			getters = append(getters, "ConcealmentFlag", "PartitionFlag")
+		}
+		for _, g := range getters {
+			a, _ := n.call(e, g).(*BV)
+			b, _ := n.call(tup.Fields[0], g).(*BV)
+			if in.Fail != "" {
+				return "decode-back: " + g + ": " + in.Fail
+			}
+			if a == nil || b == nil || a.W != 1 || b.W != 1 {
+				return "decode-back: " + g + " is not a flag"
+			}
+			if eq, dc, det := equivBits(a.Bits[0], b.Bits[0], 16); !eq || !dc {
+				return fmt.Sprintf("%s() is %s on the built EBP and %s on the EBP decoded from its own encoding (%s)", g, a.Bits[0], b.Bits[0], det)
+			}
+		}
+		return ""
+	}
 	s2 := s
 	s2.reserved = 0
 	for i, g := range s2.groups {
@@ -475,21 +518,30 @@ func (c *Checker) ebpBuild(s ebpShape) string {
 
 func (c *Checker) runEBPBuild() {
 	for _, cable := range []bool{false, true} {
-		a := &stepAgg{}
+		a, m := &stepAgg{}, &stepAgg{}
 		for _, s := range ebpShapes(false) {
 			if s.cable != cable || s.reserved != 0 {
 				continue
 			}
 			a.n++
-			if d := c.ebpBuild(s); d != "" {
+			if d := c.ebpBuild(s, false); d != "" {
 				a.bad++
 				if a.first == "" {
 					a.first = s.String() + ": " + d
+				}
+			}
+			m.n++
+			if d := c.ebpBuild(s, true); d != "" {
+				m.bad++
+				if m.first == "" {
+					m.first = s.String() + ": " + d
 				}
 			}
 		}
 		name := map[bool]string{false: "CreateComcastEBP", true: "CreateCableLabsEbp"}[cable]
 		c.check("C12.build", "ebp:"+name, "an EBP built through the constructor, the setters and the exported fields encodes to the canonical bytes of its layout (length byte = bytes that follow)",
 			a.bad == 0, fmt.Sprintf("%d of %d layouts fail; first: %s", a.bad, a.n, a.first))
+		c.check("C12.build", "ebp:"+name, "decode-back: the encoding of a setter-built EBP (also after a setter was called whose guarding flag is off) is accepted by the decoder and every flag getter answers the same on both objects",
+			m.bad == 0, fmt.Sprintf("%d of %d layouts fail; first: %s", m.bad, m.n, m.first))
 	}
 }
